@@ -22,6 +22,7 @@ type monReq struct {
 	Cols                            []string // nil = omitted (all columns)
 	HasSelect                       bool
 	Initial, Insert, Delete, Modify bool
+	NoFields                        bool // (C01) the monitor is established without a field list although Cols names the model's columns
 }
 
 type monSpec struct {
@@ -668,6 +669,9 @@ func driveC07(o opts) error {
 		term := fmt.Sprintf("C07.mk (%s)\n   [%s]\n   [%s]", dyn.CoqSchema(syms, sc), strings.Join(monTerms, ";\n    "), strings.Join(txnTerms, ";\n    "))
 		w.Add(emit.Case{Term: term, JSON: map[string]interface{}{"monitors": monJ, "transactions": txnJ}, Key: term,
 			Nontrivial: nontrivial, Class: fmt.Sprintf("mons%d", nm), Oracle: oracle})
+	}
+	if err := c07EmptyColumns(o, sc, w); err != nil {
+		return err
 	}
 	return w.Flush()
 }
